@@ -17,6 +17,7 @@ import LpProofs.C01.Kernel
 import LpProofs.C01.Table
 import LpProofs.C01.Locate
 import LpProofs.C01.Zone
+import LpProofs.C01.Scale
 
 namespace Lp.C01
 open Lp Lp.Interp
@@ -350,6 +351,29 @@ example : ∀ i, i < 4 → limiterInactive 4 (fun i => [1, 2, 3, 5].getD i 0) (f
 example : dy 4 (fun i => [1, 2, 3, 5].getD i 0) (fun i => [1, 4, 2, 25].getD i 0) 1 = 0
     ∧ pEst 4 (fun i => [1, 2, 3, 5].getD i 0) (fun i => [1, 4, 2, 25].getD i 0) 1 = 1 / 2 := by
   decide +kernel
+
+/-! ## 5b. No preferred scale: covariance under a change of units -/
+
+/-- `Sign` sees the sign only, never the magnitude: multiplying by any positive factor (1e-300 … 1e+300) does not
+    change it.  (A `Sign` that loses tiny arguments — e.g. by narrowing to `float` — violates exactly this.) -/
+theorem sign_scale_invariant {k : Rat} (hk : 0 < k) (a : Rat) : sign1 (k * a) = sign1 a := by
+  rw [sign1_mul, sign1_pos hk]; simp
+
+/-- every table, every interval, every abscissa: rescaling the abscissae by `lam ≠ 0` and the ordinates by any `mu`
+    (what the unit factors `x_dim`, `f_dim` do) rescales every limited slope by `mu/lam`, the interpolant by `mu`
+    and its first derivative by `mu/lam` — so all clauses of the property hold at every joint scale of the table,
+    however small or large the secant slopes are -/
+theorem interp_scale_covariant (N : Nat) (x y : Nat → Rat) {lam : Rat} (hl : lam ≠ 0) (mu : Rat) (j : Nat) (v : Rat) :
+    dy N (fun i => lam * x i) (fun i => mu * y i) j = mu / lam * dy N x y j
+    ∧ cubic N (fun i => lam * x i) (fun i => mu * y i) j (lam * v) = mu * cubic N x y j v
+    ∧ cubicD1 N (fun i => lam * x i) (fun i => mu * y i) j (lam * v) = mu / lam * cubicD1 N x y j v :=
+  ⟨dy_scale N x y lam mu hl j, (cubic_scale N x y lam mu hl j v).1, (cubic_scale N x y lam mu hl j v).2⟩
+
+/-- non-vacuity: the table `exX, exY` over abscissae of size `2^300` with ordinates of size `2^-60`
+    (secant slopes ≈ 1e-108) -/
+example : cubic 4 (fun i => (2 : Rat) ^ 300 * exX i) (fun i => (2 : Rat) ^ (-60 : Int) * exY i) 2 ((2 : Rat) ^ 300 * 5)
+    = (2 : Rat) ^ (-60 : Int) * cubic 4 exX exY 2 5 :=
+  (interp_scale_covariant 4 exX exY (by positivity) _ 2 5).2.1
 
 /-! ## 6. Two-dimensional (bilinear) interpolant -/
 
